@@ -21,7 +21,9 @@ LEVEL_TEXT = ("Coq theorems over an exact-rational (missing value = None) model 
               "the float round trip rnd(rnd(s*rnd(rnd(1/s)*rnd(x-l)))+l) is within 4u|x-l|+u|x|+O(u^2) of x in the standard model of floating-point "
               "arithmetic, instantiated for 53-bit round-to-nearest (Flocq FLX); DenseScaledMatrix: untransform inverts transform, unscale/rescale in place keep scale*mat+location; "
               "operations that do not re-standardise (reorder/sort/group_taxa, copies) keep every raw value (un-scaling commutes with selection), the stored column is "
-              "covariant under a change of unit and origin, histories are compositional; "
+              "covariant under a change of unit and origin, histories are compositional; the label keywords of insert/adjoin/append/incorp (taxa= / taxa_grp= explicit or omitted, "
+              "any combination) never influence the values: the operand contributes values.unscale() whichever keywords accompany it, calls differing only in the keywords "
+              "yield the same columns / locations / scales, omitting a keyword = handing over the operand's own label; "
               "the kernel expressions of the source (standardisation, un-scaling, per-summary reduction and un-scaling rule, zero-scale rule, contribution of matrix operands, "
               "numpy call tables of the taxa routines, DenseScaledMatrix updates) are regenerated from the source on every run (Gen/C15_Kernel.v), proved equal to the model's "
               "and the round-trip / scale-rule / covariance laws are proved about the generated definitions; "
@@ -42,6 +44,12 @@ RULE = ("case = (class B/E/G, raw matrix with optional taxa/taxa_grp labels — 
         "re-assignment through the property setters, concat_taxa (self at any position among 0-2 other matrices); 20% of the operations go through the generic "
         "dispatchers (select(..., axis=0/-2) ...); indices as array/list/tuple, int, index list or slice; operands as ndarray or as a second matrix of any of the three classes; "
         "after every step: the source / the operands are unchanged and share no array with the result, matrices left behind are unchanged at the end; "
+        "plus a fixed systematic block (420 cases, `cross`): class B/E/G x routine adjoin/insert/append/incorp x operand kind (ndarray, matrix of the receiver's class, "
+        "the two library subclasses for a B receiver / a run-time subclass of the receiver's class and the base class B for E and G receivers) x receiver labels (taxa+taxa_grp, "
+        "taxa only, taxa_grp only, none) x form (the routine itself / the generic dispatcher with axis 0 and -2), each case running the four combinations of explicit / omitted "
+        "taxa= and taxa_grp= with operand values of order 10^3 (location ~1100 / -500, scale ~100) against a receiver of order 1, matrix operands carrying labels of their own "
+        "wherever the receiver has labels; concat_taxa with such matrices, self first / in the middle / last, class method and generic concat "
+        "(E / G on half-labelled receivers: judged by the predicate only, everything else also inside Coq); "
         "non-trivial = at least 2 operations of which one changes the taxa list of a matrix with >= 2 distinct raw rows; distinct by SHA-256 of the case")
 TRUSTED = ["the rounding-error theorem is about an abstract rounding operator with relative error u (Flocq FLX instance: no overflow/underflow); that numpy's float64 "
            "operations are such roundings is not proved, the predicate checks the bound (with slack 5u(|x-l|+|x|)) on every first-step entry",
